@@ -15,9 +15,11 @@ class Panic(Exception):
 
 
 class TreeEval:
-    def __init__(self, facts):
+    def __init__(self, facts, mem=None, opaque=()):
         self.facts = facts
         self._tables = {}
+        self.mem = mem
+        self.opaque = tuple(opaque)
 
     def table(self, name):
         if name not in self._tables:
@@ -72,6 +74,8 @@ class TreeEval:
         if k == "sym":
             return self.syms[e[1]]
         if k == "ld":
+            if self.mem is not None:
+                return self.mem(e[2], self)
             raise Unsupported("memory read")
         if k == "phi":
             lab = self.choices.get(e[1])
@@ -167,6 +171,8 @@ class TreeEval:
             raise Unsupported("downcast")
         if k == "call":
             name = e[1]
+            if name in self.opaque:
+                return ("opaque", name, tuple(self.ev(a) for a in e[2]))
             segs = [x for x in name.split("::") if not x.startswith("<")]
             last = segs[-1].split("<")[0] if segs else ""
             args = [self.ev(a) for a in e[2]]
@@ -182,6 +188,8 @@ class TreeEval:
                 return (args[0] - args[1]) & M64
             if last in ("unwrap", "expect") and isinstance(args[0], tuple) and args[0][1] in ("Some", "Ok"):
                 return args[0][2][0]
+            if last in ("is_some", "is_none") and isinstance(args[0], tuple) and args[0][0] == "agg":
+                return int((args[0][1] == "Some") == (last == "is_some"))
             if last == "contains" and "core::ops::range::Range" in name and isinstance(args[0], tuple) and args[0][0] == "agg":
                 lo, hi = args[0][2][0], args[0][2][1]
                 if args[0][1] == "Range":
@@ -192,6 +200,9 @@ class TreeEval:
                 return ("agg", "RangeInclusive", (args[0], args[1]))
             raise Unsupported("call " + name)
         if k == "ref":
+            from .fx import is_memory_place
+            if self.mem is not None and is_memory_place(e[1]):
+                return self.mem(e[1], self)
             return self.ev(e[1])
         if k == "zst":
             return 0
